@@ -4,7 +4,7 @@ import LentilVerif.Lemmas.Extent
 namespace Lentil
 
 /-- closed form of the translated `helper.slice_offset` (the `(0, 0)` special case is the general formula) -/
-theorem sliceOffset_eq (r0 r1 c0 c1 S0 S1 : Int) :
+theorem sliceOffset_closed (r0 r1 c0 c1 S0 S1 : Int) :
     Gen.sliceOffset r0 r1 c0 c1 S0 S1 = (r0 + (r1 - r0) / 2 - S0 / 2, c0 + (c1 - c0) / 2 - S1 / 2) := by
   unfold Gen.sliceOffset
   simp only []
@@ -19,6 +19,27 @@ containing array -/
 theorem slice_extent (r0 r1 c0 c1 S0 S1 : Int) :
     arrayExtent (r1 - r0) (c1 - c0) (Gen.sliceOffset r0 r1 c0 c1 S0 S1).1 (Gen.sliceOffset r0 r1 c0 c1 S0 S1).2
       = ⟨r0 - S0 / 2, r1 - 1 - S0 / 2, c0 - S1 / 2, c1 - 1 - S1 / 2⟩ := by
-  rw [sliceOffset_eq, arrayExtent_eq]; simp only [Extent.mk.injEq]; omega
+  rw [sliceOffset_closed, arrayExtent_eq]; simp only [Extent.mk.injEq]; omega
+
+theorem intersectionShape_pos (a b : Extent) (p : Int × Int) (h : intersectionShape a b = some p) : 0 < p.1 ∧ 0 < p.2 := by
+  rw [intersectionShape_eq] at h
+  generalize min a.rmax b.rmax - max a.rmin b.rmin + 1 = nr at h
+  generalize min a.cmax b.cmax - max a.cmin b.cmin + 1 = nc at h
+  by_cases hc : (decide (nr ≤ 0) || decide (nc ≤ 0)) = true
+  · rw [if_pos hc] at h; exact absurd h (by simp)
+  · rw [if_neg hc, Option.some.injEq] at h
+    subst h
+    simp only [Bool.or_eq_true, decide_eq_true_eq] at hc
+    simp only
+    omega
+
+/-- overlapping non-empty extents have a non-empty intersection extent (core-only file: `omega` sees the core `min`/`max`) -/
+theorem intersectionExtent_valid (a b : Extent) (ha : a.rmin ≤ a.rmax ∧ a.cmin ≤ a.cmax) (hb : b.rmin ≤ b.rmax ∧ b.cmin ≤ b.cmax)
+    (h : intersect a b = true) :
+    (intersectionExtent a b).rmin ≤ (intersectionExtent a b).rmax ∧ (intersectionExtent a b).cmin ≤ (intersectionExtent a b).cmax := by
+  rw [intersect_iff'] at h
+  rw [intersectionExtent_eq]
+  show max a.rmin b.rmin ≤ min a.rmax b.rmax ∧ max a.cmin b.cmin ≤ min a.cmax b.cmax
+  omega
 
 end Lentil
